@@ -558,3 +558,49 @@ func TestVerifC15Reconcile(t *testing.T) {
 		rec.Case(nontrivial, strings.Join(hist, " ; "), cls...)
 	})
 }
+
+// ---------------------------------------------------------------------------------------------
+// Known finding c15-reload-burst-out-of-order: pathManager.doReloadConf hands every hot reload to a path with
+// `go pa.reloadConf(conf)`; two reloads in quick succession start two goroutines that race to the path's channel,
+// so the older configuration can be delivered last and win. The generated histories above wait for each reload
+// to land before the next one (that is what a human editing a file does); this test does not.
+// ---------------------------------------------------------------------------------------------
+
+const c15KnownBurst = "c15-reload-burst-out-of-order"
+
+func TestVerifC15RegressReloadBurst(t *testing.T) {
+	if kit.Known(c15KnownBurst) {
+		t.Skip("listed as known finding " + c15KnownBurst)
+	}
+	recDir := vcTempDir("c15burst")
+	defer os.RemoveAll(recDir)
+	mk := func(deleteAfter string) map[string]*conf.Path {
+		f := c15Fields{DeleteAfter: deleteAfter, SegDur: "1h"}
+		confs, err := vcPathConfs(c15SetYAML(map[string]c15Fields{"cam1": f}, recDir))
+		if err != nil {
+			t.Fatalf("harness: %v", err)
+		}
+		return confs
+	}
+	pm := vcNewPM(mk("0s"), vcPMOpts{})
+	defer pm.Close()
+	values := []string{"2h", "3h", "4h", "5h"}
+	for round := 0; round < 1500; round++ {
+		last := ""
+		for i := 0; i < 3; i++ {
+			last = values[(round+i)%len(values)]
+			pm.pathManager.ReloadPathConfs(mk(last))
+		}
+		pm.Barrier()
+		want, _ := time.ParseDuration(last)
+		ok := vcWaitUntil(3*time.Second, func() bool {
+			pa := pm.PathObj("cam1")
+			return pa != nil && time.Duration(pa.SafeConf().RecordDeleteAfter) == want
+		})
+		if !ok {
+			pa := pm.PathObj("cam1")
+			t.Fatalf("round %d: three reloads in a row ended with recordDeleteAfter=%v on the live path, the last configuration says %v",
+				round, time.Duration(pa.SafeConf().RecordDeleteAfter), want)
+		}
+	}
+}
